@@ -177,6 +177,24 @@ async fn execute_command(command: Command, frame: &Frame, store: &Store) -> Resu
 
                 // Process each value as a .recv event
                 for value in pipeline_data {
+                    // An error raised while the result is being produced travels as a value:
+                    // it ends the call with `.error`, it is not a result.
+                    if let nu_protocol::Value::Error { error, .. } = &value {
+                        let working_set = nu_protocol::engine::StateWorkingSet::new(&engine.state);
+                        let _ = store.append(
+                            Frame::builder(
+                                format!("{}.error", frame.topic.strip_suffix(".call").unwrap()),
+                                frame.context_id,
+                            )
+                            .meta(serde_json::json!({
+                                "command_id": command.id.to_string(),
+                                "frame_id": frame.id.to_string(),
+                                "error": nu_protocol::format_shell_error(&working_set, error)
+                            }))
+                            .build(),
+                        );
+                        return Ok(()) as Result<(), Box<dyn std::error::Error + Send + Sync>>;
+                    }
                     let hash = store.cas_insert_sync(nu::value_to_json(&value).to_string())?;
                     let _ = store.append(
                         Frame::builder(
